@@ -105,3 +105,11 @@ def valid_family(fam, allow_diag=True, min_size=0):
     except Exception:
         return False
     return True
+
+
+def dict_of(mapping):
+    """st.fixed_dictionaries for JSON cases, built from st.tuples: Hypothesis' own fixed_dictionaries rejects (almost) every byte
+    string handed to fuzz_one_input once it has four or more keys, which made the coverage-guided stage vacuous for such clauses
+    (0 valid cases in 5000 executions - measured, see DESIGN 9.2); tuples of any length decode fine."""
+    keys = list(mapping)
+    return st.tuples(*[mapping[k] for k in keys]).map(lambda t: dict(zip(keys, t)))
